@@ -7,7 +7,11 @@ BOUNDED = {
         unit=P + "openapi:Endpoint._check_parameters_for_conflicts (+ add_parameters)", where="openapi_python_client/parser/openapi.py",
         statement="an accepted operation's parameters have pairwise distinct python names, none is `client`/`url`, each is an "
                   "identifier, and every declared (name, in) is present; otherwise a diagnostic",
-        bound="1-3 parameters over 12 names x 4 locations (all ordered pairs; 3000 resp. 30000 sampled triples)"),
+        bound="1-3 parameters over 12 names x 4 locations (all ordered pairs; 3000 resp. 30000 sampled triples); 4 parameters "
+              "over 15 names closed under the renaming operators x 2 locations (4000 resp. 120000 sampled quadruples + the "
+              "regression family of the repaired defect)",
+        known={"C09-K2-raw-name-delimiter":
+               lambda case, why: "is not an identifier" in why and any(d in why.split("'")[1] for d in " .-")}),
     "model_properties": dict(
         unit=P + "properties.model_property:_process_properties / _add_if_no_conflict", where="openapi_python_client/parser/properties/model_property.py",
         statement="an accepted object schema has exactly the declared properties (incl. allOf members), pairwise distinct "
